@@ -13,7 +13,7 @@ def siteOf (kv : List (String × String)) (name : String) : Site :=
   ⟨boolOf (arg kv (name ++ "Guard0")), boolOf (arg kv (name ++ "Strict"))⟩
 
 def expCfgOfArgs (kv : List (String × String)) : ExpCfg :=
-  { isExpired := siteOf kv "isExpired", shift := siteOf kv "shift", select := siteOf kv "select",
+  { isExpired := siteOf kv "isExpired", shift := siteOf kv "shift",
     selectCap := siteOf kv "selectCap", coldBuildNe0 := boolOf (arg kv "coldBuildNe0"),
     addBeaconsNe0 := boolOf (arg kv "addBeaconsNe0"), saveBranchNe0 := boolOf (arg kv "saveBranchNe0"),
     reindexNe0 := boolOf (arg kv "reindexNe0"), patchReaddNe0 := boolOf (arg kv "patchReaddNe0"),
@@ -66,14 +66,8 @@ def showResp30 (ck : Clock) (verb : String) : Resp30 → String
   | .skip => "skip"
 
 structure D30 where
-  ar : Arith := ieee
-  cfg : Cfg
+  k : DState          -- everything the data-request driver keeps (state, clock, request number, policy)
   e : ExpCfg
-  s : State := {}
-  ck : Clock := {}
-  opNo : Nat := 0
-  inCase : Bool := false
-  lastTag : Option Tag := none
 
 /-- keys of the records a reply shows -/
 def shownKeys : Resp30 → List Key
@@ -114,56 +108,103 @@ def replyKeys : Resp30 → List Key
   | .pexp l => l.map (·.1)
   | _ => []
 
+def verbs30 : List String := ["shiftexp", "patch", "patchexp", "getidx", "fexp"]
+
+/-- `busyshift K N`: ShiftExpiredTreasures(N) while an Increment of K holds K's record guard: the
+    claim walk skips the busy record (it stays in the index, at its place after the next sort),
+    then the Increment completes.  One request number for the pair. -/
+def busyShift (d : D30) (key : Key) (n : Nat) : D30 × String :=
+  let k := d.k
+  if k.s.dead then (d, "skip")
+  else
+    let opNo := k.opNo + 1
+    let now := k.ck.now + opNo
+    let ck : Clock := { k.ck with nows := now :: k.ck.nows }
+    -- the walk over the index without the busy key
+    let i := Model30.idxBuild d.e (Model.summon k.s)
+    let idx := i.expIdx.getD []
+    let hidden : Inst := { i with expIdx := some (idx.filter (· != key)) }
+    let o := Model30.step k.cfg d.e k.ar now (if Model.exists_ k.s then Model.withLive k.s hidden else k.s) (.shiftExp n)
+    let s1 : State := match o.s.live with
+      | some j => if idx.contains key
+                  then { o.s with live := some { j with expIdx := some (Model30.sortByExp j.recs ((j.expIdx.getD []) ++ [key])) } }
+                  else o.s
+      | none => o.s
+    let body := (showResp30 ck "shiftexp" o.r).drop 8
+    let (k2, r2) := Driver.KV.stepReq { k with s := s1, ck := ck, opNo := opNo } ["inc", "i64", key, "1", "-", "-", "-"]
+    ({ d with k := { k2 with opNo := opNo } }, s!"busyshift{body} ; {r2}")
+
+/-- the expiry-aware requests are answered here from `Model30`; every other line (data requests,
+    close / restart / wait / compact / multi-swamp verbs …) goes to the data-request driver, whose
+    data step is `Model30`'s (it keeps the expiry index) -/
 def stepLine30 (d : D30) (line : String) : D30 × String :=
   let f := line.splitOn " "
-  match f with
-  | "case" :: _ :: rest =>
-    let kind := (rest.filterMap fun a => match a.splitOn "=" with | ["kind", v] => some (kindOf v) | _ => none).headD .mem
-    ({ d with s := { kind := kind }, ck := {}, opNo := 0, inCase := true, lastTag := none }, line)
-  | _ =>
-    if !d.inCase then (d, "no-case")
-    else match f with
-    | ["wait", ms] =>
-      if d.s.dead then (d, "skip")
-      else ({ d with ck := { d.ck with now := d.ck.now + (ms.toInt?.getD 0) * 1000000 } }, "ok")
-    | _ =>
-      let verb := f.headD ""
-      if verb == "closeidle" || verb == "restart" || verb == "close" then
-        if d.s.dead then (d, "skip") else ({ d with s := (Model.closeStep d.cfg d.s).1 }, "ok")
-      else
-        let opNo := d.opNo + 1
-        let now := d.ck.now + opNo
-        match parse30 now f with
-        | none => (d, "bad-op")
-        | some req =>
-          let ck : Clock := { d.ck with nows := now :: d.ck.nows }
-          let o := Model30.step d.cfg d.e d.ar now d.s req
-          let before := Model.abs d.s
-          -- (1) a shown record whose stored expiry is pre-epoch
-          let pre := !d.s.dead && !d.ar.expNe0 && (shownKeys o.r).any fun k => decide (storedExp d.s k < 0)
-          -- (2) an expiry-driven selection that differs from the definition applied to the store
-          -- equal expiries on different keys leave the index order open (unstable sort): no verdict then
-          let exps := (before.map fun p => p.2.m.exp).filter (· != 0)
-          let ties := decide (exps.eraseDups.length ≠ exps.length)
-          let stale := !d.s.dead && !ties && (match refKeys now before req with
-            | some ks => (match o.r with | .err _ => false | _ => decide (ks ≠ replyKeys o.r))
-            | none => false)
-          let tags := match req with | .kv r => (Model.step d.cfg d.ar now d.s r).tags | _ => []
-          -- the one mechanism known to move an expiry past the index stays the explanation of a stale
-          -- index for the rest of the case, whatever else happens afterwards
-          let lastTag := if d.lastTag == some Tag.incFailTrace || tags.contains Tag.incFailTrace then some Tag.incFailTrace
-                         else match pickTag tags with | some t => some t | none => d.lastTag
-          let flag :=
-            if pre then "\t#F:C30-preepoch-expiry-invisible"
-            else if stale then "\t#F:C30-" ++
-              (if !d.e.good then "expiry-site-deviates"
-               else match lastTag with | some t => tagId t | none => "expiry-paths-disagree")
-            else ""
-          ({ d with s := o.s, ck := ck, opNo := opNo, lastTag := lastTag }, showResp30 ck verb o.r ++ flag)
+  let verb := f.headD ""
+  if verb == "busyshift" && d.k.inCase then
+    match f with
+    | [_, key, n] => busyShift d key (n.toNat?.getD 0)
+    | _ => (d, "bad-op")
+  else if !(verbs30.contains verb) || !d.k.inCase then
+    let (k', out) := Driver.KV.stepLine d.k line
+    ({ d with k := k' }, out)
+  else
+    let k := d.k
+    let opNo := k.opNo + 1
+    let now := k.ck.now + opNo
+    match parse30 now f with
+    | none => (d, "bad-op")
+    | some req =>
+      let ck : Clock := { k.ck with nows := now :: k.ck.nows }
+      let o := Model30.step k.cfg d.e k.ar now k.s req
+      let before := Model.abs k.s
+      -- (1) a shown record whose stored expiry is pre-epoch
+      let pre := !k.s.dead && !k.ar.expNe0 && (shownKeys o.r).any fun key => decide (storedExp k.s key < 0)
+      -- (2) an expiry-driven selection that differs from the definition applied to the store
+      -- equal expiries on different keys leave the index order open (unstable sort): no verdict then
+      let exps := (before.map fun p => p.2.m.exp).filter (· != 0)
+      let ties := decide (exps.eraseDups.length ≠ exps.length)
+      let stale := !k.s.dead && !ties && (match refKeys now before req with
+        | some ks => (match o.r with | .err _ => false | _ => decide (ks ≠ replyKeys o.r))
+        | none => false)
+      -- in the domains that do not report expiry-path disagreements the line is only marked (`#D:`)
+      let mark := if k.pol == .c30 then "\t#F:C30-" else "\t#D:"
+      let flag :=
+        if pre then mark ++ "preepoch-expiry-invisible"
+        else if stale then mark ++
+          (if !d.e.good then "expiry-site-deviates"
+           else match k.lastTag with | some t => tagId t | none => "expiry-paths-disagree")
+        else ""
+      let shown : Resp30 := if !k.byKey then o.r else match o.r with
+        | .recs l => .recs (l.mergeSort fun a b => a.1 ≤ b.1)
+        | .pexp l => .pexp (l.mergeSort fun a b => a.1 ≤ b.1)
+        | r => r
+      ({ d with k := { k with s := o.s, ck := ck, opNo := opNo } }, showResp30 ck verb shown ++ flag)
+
+/-- the data step of `Model30` (index kept in order) with the tags of the plain model -/
+def stepF30 (e : ExpCfg) (cfg : Cfg) (ar : Arith) (now : Int) (s : State) (r : Req) : Model.Out :=
+  let o := Model30.step cfg e ar now s (.kv r)
+  ⟨o.s, (match o.r with | .kv x => x | _ => .skip), (Model.step cfg ar now s r).tags⟩
+
+def goodSites (ne0 : Bool) : ExpCfg :=
+  { isExpired := ⟨true, true⟩, shift := ⟨true, true⟩, selectCap := ⟨true, true⟩,
+    coldBuildNe0 := true, addBeaconsNe0 := true, saveBranchNe0 := true, reindexNe0 := true, patchReaddNe0 := true,
+    filterGuard0 := true, isEmptyEq0 := true, setZeroNone := true, clearWins := true,
+    wireGet := if ne0 then .ne0 else .gt0 }
 
 def run (args : List String) : IO UInt32 := do
   let kv := parseArgs args
-  lineLoop stepLine30 { cfg := cfgOfArgs kv, e := expCfgOfArgs kv, ar := ieeeWith (arg kv "wireGet" == "ne0") }
+  let e := expCfgOfArgs kv
+  lineLoop stepLine30 { k := { cfg := cfgOfArgs kv, pol := .c30, pid := "C30", ar := ieeeWith (arg kv "wireGet" == "ne0"),
+                               stepF := stepF30 e }, e := e }
+  return 0
+
+/-- C05's histories mix the expiry-aware requests in: same stepping, close/reload policy of C05, the
+    expiry sites taken as documented (their facts belong to C30) -/
+def runC05 (args : List String) : IO UInt32 := do
+  let kv := parseArgs args
+  let ne0 := boolOf (arg kv "wireExpNe0")
+  let e := goodSites ne0
+  lineLoop stepLine30 { k := { cfg := cfgOfArgs kv, pol := .c05, pid := "C05", ar := ieeeWith ne0, stepF := stepF30 e }, e := e }
   return 0
 
 end Driver.C30
